@@ -141,7 +141,9 @@ def run(ctx):
     rp = P.fn('rip_workspace::Workspace::revert_paths')
     ctx.touch(rp)
     # revert restores bytes or removes created files
-    ctx.ob('C12.2', rp, 'revert-restores', bool(rp.calls(r'^std::fs::write$')) and bool(rp.calls(r'^std::fs::remove_file$')), 'revert_paths writes back previous bytes and removes files that did not exist', line=rp.line)
+    # the restore loop may be written as `undo.into_iter().rev().for_each(|(path, previous)| ..)`: look into the closures too
+    rp_fam = [rp] + list(P.closures_of(rp.path))
+    ctx.ob('C12.2', rp, 'revert-restores', any(g.calls(r'^std::fs::write$') for g in rp_fam) and any(g.calls(r'^std::fs::remove_file$') for g in rp_fam), 'revert_paths writes back previous bytes and removes files that did not exist', line=rp.line)
 
     # ---------------------------------------------------------------- C12.3
     parse = f.calls(r'^rip_workspace::patch::Patch::parse$')
@@ -162,24 +164,38 @@ def run(ctx):
     from ..core import switches as _sw
     lps = rp.loops()
     if not lps:
-        raise CheckError('C12.5: revert_paths has no loop over the undo entries')
-    h, body = max(lps.items(), key=lambda kv: len(kv[1]))
-    exits = [(a, b) for a in body for b in rp.succs(a) if b not in body and rp.blocks[b]['t']['k'] != 'unreachable']
-    bad = []
-    for (a, b) in exits:
-        t = rp.blocks[a]['t']
-        ok = False
-        if t['k'] == 'switch':
-            o = rp.origin(t['on'])
-            if o[0] == 'rv' and o[1]['k'] == 'discr':
-                d1 = rp.single_def(o[1]['pl']['l'])
-                ok = bool(d1 and d1[2] == 'call' and re.search(r'Iterator>::next$|Iterator::next$', (d1[3]['f'].get('r') or d1[3]['f'].get('p') or '')))
-        if not ok:
-            bad.append((a, b))
-    ctx.ob('C12.5', rp, 'revert-visits-every-entry', not bad,
-           'the restore loop %s' % ('ends only when the undo list is exhausted' if not bad else
-                                    'can be LEFT EARLY (a `?` / return inside it, line %s): one failing entry leaves every later entry un-restored — the failed patch stays half applied' % rp.blocks[bad[0][0]]['t'].get('ln')),
-           line=rp.blocks[bad[0][0]]['t'].get('ln') if bad else rp.line)
+        # iterator form: for_each visits every entry by construction; try_for_each / find / any / take_while can stop early
+        users = []
+        for s_ in rp.sites():
+            for a in s_.args:
+                o = rp.origin(a)
+                if o[0] == 'rv' and o[1].get('ak') == 'closure' and o[1].get('def') in P.fns and P.fns[o[1]['def']].calls(r'^std::fs::(write|remove_file)$'):
+                    users.append(s_)
+        if not users:
+            raise CheckError('C12.5: revert_paths neither loops over the undo entries nor hands a restoring closure to an iterator adaptor')
+        early = [u for u in users if not re.search(r'::(for_each|map|filter_map|fold|inspect)$', u.callee)]
+        ctx.ob('C12.5', rp, 'revert-visits-every-entry', not early, 'the undo entries are restored by %s: %s' % (', '.join(sorted({u.name for u in users})),
+               'every entry is visited' if not early else 'the adaptor can stop at the first failing entry'), line=users[0].line)
+        lps = None
+    if lps is not None:
+        h, body = max(lps.items(), key=lambda kv: len(kv[1]))
+        exits = [(a, b) for a in body for b in rp.succs(a) if b not in body and rp.blocks[b]['t']['k'] != 'unreachable']
+        bad = []
+        for (a, b) in exits:
+            t = rp.blocks[a]['t']
+            ok = False
+            if t['k'] == 'switch':
+                o = rp.origin(t['on'])
+                if o[0] == 'rv' and o[1]['k'] == 'discr':
+                    d1 = rp.single_def(o[1]['pl']['l'])
+                    ok = bool(d1 and d1[2] == 'call' and re.search(r'Iterator>::next$|Iterator::next$', (d1[3]['f'].get('r') or d1[3]['f'].get('p') or '')))
+            if not ok:
+                bad.append((a, b))
+        ctx.ob('C12.5', rp, 'revert-visits-every-entry', not bad,
+               'the restore loop %s' % ('ends only when the undo list is exhausted' if not bad else
+                                        'can be LEFT EARLY (a `?` / return inside it, line %s): one failing entry leaves every later entry un-restored — the failed patch stays half applied' % rp.blocks[bad[0][0]]['t'].get('ln')),
+               line=rp.blocks[bad[0][0]]['t'].get('ln') if bad else rp.line)
+
 
     # ---------------------------------------------------------------- C12.6
     ctx.rule('C12.6', 'the success result names what was touched: every file mutation in the operation closure (write / remove / rename of a safe_join result) is followed, on every non-error path to the next operation, by a push into the changed-files list of the patch-relative path that was resolved into it.')
